@@ -96,6 +96,7 @@ Record mfile := MFile {
   mf_succ : gmap positive triple;
   mf_ref : gmap positive nat;
   mf_min_free : positive;
+  mf_max_nodes : option positive;
 }.
 
 Definition dump_manager (vorder : list nat) : MS mfile :=
@@ -103,7 +104,7 @@ Definition dump_manager (vorder : list nat) : MS mfile :=
   if negb (bool_decide (NoDup vorder ∧ (list_to_set vorder : gset nat) = dom (vars s)))
   then raise EOracle else
   vl <- mapM (fun v => l <- level_of_var v ;; ret (v, l)) vorder ;;
-  ret (MFile vl (roots s) (pred s) (succ s) (refc s) (min_free s)).
+  ret (MFile vl (roots s) (pred s) (succ s) (refc s) (min_free s) (max_nodes s)).
 
 (** [BDD._load_manager(filename)] builds a new manager *)
 Definition load_manager (mf : mfile) : MS unit :=
@@ -111,4 +112,5 @@ Definition load_manager (mf : mfile) : MS unit :=
   init_levels (mf_vars mf) ;;;
   modify (fun s => s <| roots := mf_roots mf |> <| pred := mf_pred mf |>
                      <| succ := mf_succ mf |> <| refc := mf_ref mf |>
-                     <| min_free := mf_min_free mf |>).
+                     <| min_free := mf_min_free mf |>
+                     <| max_nodes := mf_max_nodes mf |>).
